@@ -354,9 +354,7 @@ def run_mix(scn):
 
 def mix_case(scn, out):
     """recording -> TimeTrace case (kind "mix")"""
-    from harness.common import MachineryFailure
     base_utc = tf.dec(out["base_utc"])
-    base = tf.dec(scn["base"])
     runs, n_start, n_shut, after = [], 0, 0, 0
     start_ok, shut_ok = True, True
     for x in out["rec"]:
@@ -369,16 +367,12 @@ def mix_case(scn, out):
         elif x["phase"] in ("removal", "after"):
             after += 1
         else:
+            # recorded as it is - TLC decides: a "time" run whose trigger_time is not a datetime gets the instant
+            # <<0, 0>> (denoted by nothing); a run of any other trigger_type needs a cause ("state" / "event")
+            # or is a run without cause
             at = tf.enc(base_utc + dt.timedelta(seconds=x["vt"]))
-            if x["type"] == "time":
-                t = base_drv.parse_tt(x["tt"])
-                if t is None:
-                    raise MachineryFailure("unexpected recording entry %r" % (x,))
-                runs.append({"at": at, "type": "time", "tt": tf.enc(t), "vt": x["vt"]})
-            elif x["type"] in ("state", "event") and x["tt"] == "None":
-                runs.append({"at": at, "type": x["type"], "tt": [0, 0], "vt": x["vt"]})
-            else:
-                raise MachineryFailure("unexpected recording entry %r" % (x,))
+            t = base_drv.parse_tt(x["tt"]) if x["type"] == "time" else None
+            runs.append({"at": at, "type": x["type"], "tt": tf.enc(t) if t is not None else [0, 0], "vt": x["vt"]})
     stims = [{"at": tf.enc(base_utc + dt.timedelta(seconds=s["vt"])), "k": s["k"], "vt": s["vt"]} for s in out["applied"]]
     return {"kind": "mix", "id": scn["sid"], "specs": scn["specs"], "startup": out["startup"],
             "horizon": tf.enc(base_utc + dt.timedelta(seconds=scn["horizon"])), "runs": runs, "stims": stims,
